@@ -61,3 +61,28 @@ Fixpoint lfailures_from (i : Z) (l : list lcase) : list Z :=
   end.
 Definition lfailures (l : list lcase) : list Z := lfailures_from 0%Z l.
 Definition lmodel_out (c : lcase) := compile (lc_model c).
+
+(* the SHAPE of the two outputs agrees (same verdict kind, variables, rows with their names and relations, domain kinds):
+   a correspondence mismatch is considered as a numerical tie of the bound analysis only if nothing but numbers differs *)
+Definition vkind_eqb (a b : vtype) : bool :=
+  match a, b with
+  | TBoolean, TBoolean | TIntegerRange _ _, TIntegerRange _ _ | TNonNegativeReal _ _, TNonNegativeReal _ _ | TReal _ _, TReal _ _ => true
+  | _, _ => false
+  end.
+Definition shape_same (c : lcase) : bool :=
+  match compile (lc_model c), lc_expect c with
+  | inl e1, inl e2 => lerr_eqb e1 e2
+  | inr a, inr b =>
+      list_eqb String.eqb (lm_vars a) (lm_vars b)
+      && forallb (fun v => match al_get (lm_domain a) v, al_get (lm_domain b) v with Some x, Some y => vkind_eqb x y | _, _ => false end) (lm_vars a)
+      && list_eqb (fun r1 r2 => String.eqb (lr_name r1) (lr_name r2) && cmp_eqb (lr_cmp r1) (lr_cmp r2)
+                                && Nat.eqb (List.length (lr_coeffs r1)) (List.length (lr_coeffs r2))) (lm_rows a) (lm_rows b)
+      && dir_eqb (lm_dir a) (lm_dir b)
+  | _, _ => false
+  end.
+Fixpoint shape_diff_from (i : Z) (l : list lcase) : list Z :=
+  match l with
+  | [] => []
+  | c :: cs => if shape_same c then shape_diff_from (i + 1)%Z cs else i :: shape_diff_from (i + 1)%Z cs
+  end.
+Definition shape_differs (l : list lcase) : list Z := shape_diff_from 0%Z l.
